@@ -66,7 +66,7 @@ func init() {
 			{Name: "l2-pid-reuse", Fn: scnL2World("C09"), Weight: 1},
 		},
 		Rule: "PID-reuse histories: session A (login and records in every relative order, incl. all records first) ends, then session B opened by the same PID " +
-			"(login and records in every relative order), optional stray late event of A, background sessions, taped map-iteration order; " +
+			"(login and records in every relative order), optional stray late event of A, background sessions, taped map-iteration order, kernel clock unrelated / one hour behind / in step with the daemon's, cleanup calls (cut-off one minute back) at taped places; " +
 			"non-trivial = both sessions' halves delivered and A ended before B began; distinct = distinct (history hash, map-order/schedule hash)",
 		Quick: 12000, Thorough: 350000,
 	})
@@ -313,7 +313,15 @@ func scnC09(rc *RunCtx) {
 
 // genC09History: session A (s0) ends, then session B (s1) is opened by the same PID.
 func genC09History(t *simrt.Tape) *History {
-	k := NewKaudit()
+	var k *Kaudit
+	switch t.Choose(4, "kernel.clock") {
+	case 1:
+		k = NewKauditAt(time.Now().Add(-time.Hour)) // a backlog: kernel timestamps an hour behind the daemon's clock
+	case 2:
+		k = NewKauditAt(time.Now())
+	default:
+		k = NewKaudit()
+	}
 	w := &L1World{}
 	pid := 5000 + t.Choose(50, "pid")
 	mk := func(ses string, uid, uniq, nact int, strayAfter bool) *Session {
@@ -409,7 +417,16 @@ func genC09History(t *simrt.Tape) *History {
 	}
 	ops = append(ops, bops...)
 	_ = phaseB
-	return &History{W: w, Ops: ops}
+	// the periodic cleanup (cut-off one minute back) may run anywhere in between: nothing in
+	// this history is that old, so it must not change anything
+	var withCleanups []HOp
+	for _, o := range ops {
+		if t.Choose(8, "cleanup?") == 7 {
+			withCleanups = append(withCleanups, HOp{Kind: "cleanup", CutMs: -60000})
+		}
+		withCleanups = append(withCleanups, o)
+	}
+	return &History{W: w, Ops: withCleanups}
 }
 
 // checkC09 is scoped to binding and identity (completeness/order of a flush is C02's).
